@@ -104,6 +104,8 @@ Obs(e) ==
     [] e.ev = "Commit"  -> ObsCommit(e)
     [] e.ev = "Head"    -> ObsHead(e)
     [] e.ev = "Consume" -> ObsConsume(e)
+    \* a call with non-negative arguments panicked
+    [] e.ev = "Panic"   -> Fail("C10/panic")
     [] OTHER            -> Fail("C10/harness/unknown-event")
 
 NotBad == bad = ""
